@@ -4,6 +4,7 @@ go 1.12
 
 require (
 	github.com/dappledger/AnnChain v0.0.0
+	github.com/ethereum/go-ethereum v1.8.27
 	github.com/spf13/viper v0.0.0-20171207042631-1a0c4a370c3e
 )
 
